@@ -244,6 +244,9 @@ CLAIMS["C03"]["ties"] = (_arith_tie_for("C03"),)
 CLAIMS["C03"]["text"] += (" Translator tie: Market.remain_executable_orders (the decision whether a round has anything to do) is regenerated from the source on every run and "
                           "proved equal to the model's executable_b for all books, given the quantities it reads from the books (emptiness, best prices, market-order volumes, numbers of "
                           "limit levels, lowest ask / highest bid level); it never raises on them.")
+CLAIMS["C03"]["text"] += (" Whole simulations (theories/SimBooks.v): for every configuration, tape of runner decisions, agent behaviour and fundamental path whose accepted orders have "
+                          "positive volume and time-to-live (Order.__init__ enforces it), no run ever ends with an internal assertion of the matching engine and every market of the run satisfies "
+                          "the lifetime invariant at every atomic update - so the market-level theorems (C01, C02, C03, C04, C08) apply to every market of every simulation.")
 CLAIMS["C03"]["technique"] += " + source-to-Gallina translator tie for the executability decision (regenerated and re-proved every run)"
 for _p, _sw in (("C02", _order_sweep_c02), ("C04", _order_sweep_c04)):
     CLAIMS[_p]["ties"] = (_order_tie,)
